@@ -1,8 +1,8 @@
 (** C32 — failed transfers refund exactly the sent amount, exactly once.  Statements only; proofs in
-    Transfer/RefundFacts.v.  [dbal w w' c a x] etc. = change of balance / supply / tracked escrow between two worlds. *)
+    Transfer/RefundFacts.v (exactness, once) and Transfer/RefundLive.v (the refund cannot fail).  [dbal w w' c a x] etc. = change of balance / supply / tracked escrow between two worlds. *)
 From IBC Require Import Lib.Bytes Transfer.DenomLocal Transfer.Bank Transfer.Keeper Transfer.World
   Transfer.BankFacts Transfer.WorldFacts Transfer.AuthFacts Transfer.EscrowFacts Transfer.ConserveFacts
-  Transfer.RefundFacts Transfer.Examples.
+  Transfer.RefundFacts Transfer.Examples Transfer.RefundLive.
 Local Open Scope Z_scope.
 
 (** [os] is a successful send (MsgTransfer v1 / alias, or a direct v2 send) creating packet n, of a native or a
@@ -26,6 +26,38 @@ Theorem C32_refund_exact w0 os ops o_r r :
     dbal w w' c a x = - dbal w0 w1 c a x /\ dsup w w' c x = - dsup w0 w1 c x /\ dtesc w w' c x = - dtesc w0 w1 c x.
 Proof. exact (refund_exact w0 os ops o_r r). Qed.
 Print Assumptions C32_refund_exact.
+
+(** The refund goes through: in every world reached from a fresh one (nothing transferred yet, supplies >= 0) by
+    safe, plain operations — any number of chains, any topology — the step processing the timeout of an in-flight,
+    not received packet, or the acknowledgement of an in-flight packet whose receive produced an error ack, returns
+    Ok and clears the commitment.  It either mints (the module account holds what was just minted) or unescrows an
+    amount that escrow(channel) holds because the packet's amount is one of the non-negative summands of the
+    conservation identity (C30); the tracked total covers it as well (C31), so SetTotalEscrowForDenom does not panic.
+    Together with C32_refund_exact ([w' <> w] is now a consequence) the sender is refunded exactly. *)
+Theorem C32_refund_cannot_fail w0 ops n p r o :
+  links_ok (w_links w0) -> Fresh w0 -> (forall c x, 0 <= sup (bank (w_ch w0 c)) x) -> ok_ops w0 ops ->
+  let w := run w0 ops in
+  nth_error (w_pk w) n = Some p -> ps_committed p = true ->
+  ((o = OTimeout n r true /\ ps_recv p = None) \/ (o = OAck n r /\ ps_recv p = Some false)) ->
+  snd (fst (step w o)) = OOk /\
+  exists q, nth_error (w_pk (step_w w o)) n = Some q /\ ps_committed q = false.
+Proof. exact (refund_cannot_fail_fresh w0 ops n p r o). Qed.
+Print Assumptions C32_refund_cannot_fail.
+
+(** the same from any world satisfying the invariants ([Sound] = Good, Conserve, non-negative balances and
+    supplies, tracked total = escrow balances), which every safe, plain step preserves *)
+Theorem C32_refund_cannot_fail_inv w chans n p r o :
+  Sound w chans -> nth_error (w_pk w) n = Some p -> ps_committed p = true ->
+  ((o = OTimeout n r true /\ ps_recv p = None) \/ (o = OAck n r /\ ps_recv p = Some false)) ->
+  snd (fst (step w o)) = OOk /\
+  exists q, nth_error (w_pk (step_w w o)) n = Some q /\ ps_committed q = false.
+Proof. exact (refund_cannot_fail w chans n p r o). Qed.
+Print Assumptions C32_refund_cannot_fail_inv.
+
+Theorem C32_sound_preserved w chans o :
+  Sound w chans -> safe_op o -> plain_op w o -> Sound (step_w w o) chans.
+Proof. exact (sound_step w chans o). Qed.
+Print Assumptions C32_sound_preserved.
 
 (** exactly once: after the terminal outcome, further acknowledgements / timeouts of the packet are no-ops,
     in every later world (the cleared commitment never comes back) *)
@@ -80,3 +112,11 @@ Example C32_nonvacuous :
   bal (bank (w_ch (run ex_world ex_ops) 2%N)) (User 9) (CIbc (B "transfer/channel-4/transfer/channel-2/uatom")) = 40 /\
   sup (bank (w_ch (run ex_world ex_ops) 2%N)) (CIbc (B "transfer/channel-4/transfer/channel-2/uatom")) = 40.
 Proof. split; [exact ex_good|]. split; [reflexivity|]. vm_compute. auto 10. Qed.
+
+(** non-vacuity of the liveness theorem: the example world and the first ten operations of the example history meet
+    its hypotheses and leave packet 3 in flight *)
+Example C32_liveness_nonvacuous :
+  links_ok (w_links ex_world) /\ Fresh ex_world /\ (forall c x, 0 <= sup (bank (w_ch ex_world c)) x) /\
+  ok_ops ex_world (firstn 10 ex_ops) /\
+  exists p, nth_error (w_pk (run ex_world (firstn 10 ex_ops))) 3 = Some p /\ ps_committed p = true /\ ps_recv p = None.
+Proof. exact (conj ex_links_ok (conj ex_fresh (conj ex_sup_nonneg (conj ex_prefix_ok ex_packet3_in_flight)))). Qed.
